@@ -209,4 +209,11 @@ theorem mem_aggQuads (qs : List Quad) (pat : Pat) (q : Quad) : ∀ (gs : List GN
       · subst h2; exact Or.inl ⟨rfl, h3, h1⟩
       · exact Or.inr ⟨h1, h2, h3⟩
 
+/-- which namespaces a read may bind depends on the quads and the configuration only -/
+theorem mayBindNs_congr {a b : State} (hq : b.quads = a.quads) (hu : b.defaultUnion = a.defaultUnion)
+    (hd : b.dname = a.dname) (hi : b.isDataset = a.isDataset) (r : ReadOp) (n : Nat) :
+    r.mayBindNs b n ↔ r.mayBindNs a n := by
+  have hv : b.visible = a.visible := by unfold State.visible; rw [hq, hu, hd]
+  cases r <;> simp only [ReadOp.mayBindNs, hv, hq, hi]
+
 end RV.C13
